@@ -318,6 +318,39 @@ func corrC08(c *corrCtx) {
 			}
 		}
 	}
+	// every truncation inside the leading structures (the first 160 bytes: signature, first chunk/segment headers and
+	// the header after them) and around the last needed byte, all at once against byte by byte and in threes: where a
+	// stream ends inside a fixed-size field, what the loader says must not depend on how the bytes arrived
+	for _, s := range base {
+		cuts := map[int]bool{}
+		for k := 0; k <= 160 && k <= len(s.data); k++ {
+			cuts[k] = true
+		}
+		for k := s.needed - 12; k <= s.needed+12; k++ {
+			if k >= 0 && k <= len(s.data) {
+				cuts[k] = true
+			}
+		}
+		lds := []string{"auto"}
+		if s.format != "none" {
+			lds = append(lds, s.format)
+		}
+		for cut := range cuts {
+			for _, ld := range lds {
+				ref := runLoadx(ld, s.data[:cut], nil, false, false).meta
+				for _, sc := range [][]int{{1}, {3}, {5, 2}} {
+					for _, ewd := range []bool{false, true} {
+						got := runLoadx(ld, s.data[:cut], sc, false, ewd).meta
+						c.stats["head-cuts/"+ld]++
+						if got != ref {
+							c.direct(fmt.Sprintf("C08/head-cut/%s/%s/cut%d/sched=%s/ewd=%v", s.name, ld, cut, schedStr(sc), ewd), "result depends on how the source segments its data (a stream ending inside a leading structure)",
+								map[string]interface{}{"loader": ld, "sched": schedStr(sc), "eofWithData": ewd, "all_at_once": ref, "got": got, "cut": cut, "data": hexs(s.data[:cut])})
+						}
+					}
+				}
+			}
+		}
+	}
 	typedSourceCases(c, "C08", append(seedFiles(r, true), seedFiles(r, false)...))
 	// sources that now and then return (0, nil) — discouraged by the io.Reader contract but allowed, and
 	// tolerated by bufio and io.ReadFull: the result must still be the all-at-once one (direct oracle only;
